@@ -8,7 +8,7 @@ from .. import calg, jmodel as J
 from ..cskel import Skel, strip_comments
 from ..pymodel import package
 from ..ratemodel import model as ratemodel, SELF
-from ..valueflow import lower, show, simp, walk
+from ..valueflow import Flow, lower, show, simp, subst, walk
 
 EXPLANATION = (
     "From the registration tables Reg(K) (ordered name/symbol/kind/value, extracted from the __init__ chains of the 6 reaction classes, 5 grain "
@@ -402,20 +402,71 @@ SITES = [
 
 
 def _resolved(order, at, e):
-    """`e` with a template variable replaced by the value of the closest `{% set %}` that precedes item `at` in document order
-    (`order`: the items in document order); a name that is never set stays a name."""
-    for _ in range(4):
+    """`e` with a template variable replaced by the value of the closest `{% set %}` (a `{% with %}` binding, a macro parameter)
+    that precedes item `at` in document order (`order`: the items in document order); a value that is itself a name is resolved
+    from where it was bound (`{{ helper(components) }}` binds the parameter `components` to the caller's `components`); a name that is
+    never set stays a name."""
+    idx = next((i for i, it in enumerate(order) if it is at), len(order))
+    for _ in range(8):
         if e is None or e[0] != "name":
             break
-        val = None
-        for it in order:
-            if it is at:
-                break
-            if it[0] == "set" and it[1] == e:
-                val = it[2]
-        if val is None:
+        j = next((i for i in range(idx - 1, -1, -1) if order[i][0] == "set" and order[i][1] == e), None)
+        if j is None:
             break
-        e = val
+        e, idx = order[j][2], j
+    return e
+
+
+def _source(order, at, e):
+    """the sequence a loop iterates, by origin: filters stripped and `{% set %}` names followed until neither applies
+    -> (base expression, [filters, innermost first])"""
+    fs = []
+    for _ in range(8):
+        e, f = J.unfilter(e)
+        fs = f + fs
+        r = _resolved(order, at, e)
+        if r == e:
+            break
+        e = r
+    return e, fs
+
+
+def _terms(e):
+    """[`network.<attr>`, ..] of a component list written as a sum of attributes of `network`, else None"""
+    if e is None:
+        return None
+    if e[0] == "bin" and e[1] == "+":
+        a, b = _terms(e[2]), _terms(e[3])
+        return None if a is None or b is None else a + b
+    if e[0] == "attr" and e[1] == ("name", "network") and isinstance(e[2], str):
+        return [e[2]]
+    return None
+
+
+def _covers(ctx, key, where, what, comps, complist):
+    """the component list `comps` a declaration loop enumerates against the list `complist` the expressions need.  VIOLATION only
+    when the list is UNDERSTOOD (a sum of network.<attr>) and lacks a needed component; the needed components in their order, with
+    further ones in between, still declare everything; anything else is not understood."""
+    need, got = _terms(complist), _terms(comps)
+    if comps == complist:
+        ctx.ok("R5", key, where, f"the {what} covers {J.show(complist)}")
+    elif got is None:
+        ctx.unrec("R5", key, where, f"cannot tell which components the {what} enumerates: {J.show(comps) if comps else 'unset'}")
+    elif [x for x in need if x not in got]:
+        ctx.bad("R5", key, where, f"the {what} covers {J.show(complist)}", expected=J.show(complist), found=J.show(comps))
+    elif [x for x in got if x in need] == need:
+        ctx.ok("R5", key, where, f"the {what} covers {J.show(complist)} (and more)")
+    else:
+        ctx.unrec("R5", key, where, f"the {what} enumerates the components in another order: {J.show(comps)}")
+
+
+def _first_last(e):
+    """`pair | first` / `pair | last` of a (key, value) pair are its items 0 / 1"""
+    if not isinstance(e, tuple):
+        return e
+    e = tuple(_first_last(x) if isinstance(x, tuple) else x for x in e)
+    if len(e) == 5 and e[0] == "filter" and e[1] in ("first", "last") and not e[3] and not e[4]:
+        return ("item", e[2], ("const", 0 if e[1] == "first" else 1))
     return e
 
 
@@ -436,20 +487,27 @@ def _r5(ctx, pkg):
                 seq = []      # (kind, components, offset)
                 for it, off in its:
                     if it[0] == "for":
-                        base, fs = J.unfilter(it[2])
-                        if fs and fs[0][0] == "collect_variable_items" and fs[0][1] and fs[0][1][0][0] == "const":
-                            # the component list by ROLE: whatever is piped into collect_variable_items, a `{% set %}` name resolved
-                            seq.append((fs[0][1][0][1], _resolved(sk.marks, it, base), off, it))
-                        elif J.path(_resolved(sk.marks, it, base)) == exprs:
+                        base, fs = _source(sk.marks, it, it[2])
+                        cv = [f for f in fs if f[0] == "collect_variable_items"]
+                        if cv and cv[0][1] and cv[0][1][0][0] == "const":
+                            # the component list by ROLE: whatever is piped into collect_variable_items, `{% set %}` names resolved
+                            seq.append((cv[0][1][0][1], base, off, it))
+                        elif J.path(base) == exprs:
                             seq.append(("exprs", None, off, it))
                 kinds = [s[0] for s in seq]
-                ok_order = kinds == ["params", "deriveds", "exprs"]
-                ctx.check(ok_order, "R5", f"{key}:order", (rel, seq[0][3][5] if seq else 0),
-                          "parameters are declared, then derived quantities, then the expressions that use them", expected="params, deriveds, exprs", found=str(kinds))
+                where = (rel, seq[0][3][5] if seq else 0)
+                if kinds == ["params", "deriveds", "exprs"]:
+                    ctx.ok("R5", f"{key}:order", where, "parameters are declared, then derived quantities, then the expressions that use them")
+                elif sorted(kinds) == ["deriveds", "exprs", "params"]:
+                    # the three loops are all there and recognised, in a wrong order
+                    ctx.bad("R5", f"{key}:order", where, "parameters are declared, then derived quantities, then the expressions that use them",
+                            expected="params, deriveds, exprs", found=str(kinds))
+                else:
+                    ctx.unrec("R5", f"{key}:order", where, "cannot find exactly one params loop, one deriveds loop and one loop pasting "
+                              f"{exprs} in this function (found {kinds}): the declarations / expressions are emitted in a way that is not understood")
                 for kind, comps, off, it in seq:
                     if kind in ("params", "deriveds"):
-                        ctx.check(comps == complist, "R5", f"{key}:{kind}-components", (rel, it[5]),
-                                  f"the {kind} loop covers {J.show(complist)}", expected=J.show(complist), found=J.show(comps) if comps else "unset")
+                        _covers(ctx, f"{key}:{kind}-components", (rel, it[5]), f"{kind} loop", comps, complist)
                         # body: `realtype key = u_data->key;` / `realtype key = value;`
                         tv = it[1]
                         # (key, value) of the enumeration: the two loop targets, or item 0 / 1 of a single target
@@ -457,19 +515,24 @@ def _r5(ctx, pkg):
                             kx, vx = {tv[1][0]}, {tv[1][1]}
                         else:
                             kx, vx = {("item", tv, ("const", 0))}, {("item", tv, ("const", 1))}
-                        body = J.inline_sets(it[3])          # `{% set name = key %}` / macro parameters read as what they stand for
-                        outs = [x[1] for x in body if x[0] == "out"]
-                        txt = re.sub(r"\s+", " ", "".join(x[1] for x in body if x[0] == "text"))
-                        shape = len(outs) == 2 and not any(x[0] in ("for", "if") for x in body) and \
-                            re.search(r"(realtype|double)\s+=\s+\w+->;" if kind == "params" else r"(realtype|double)\s+=\s*;", txt) is not None
+                        # what one iteration prints, however it is assembled (text + outputs, `~`, format, set names, macro parameters)
+                        pieces = J.squeeze(J.printed(ctx.tree, list(it[3]), {}))
+                        outs = [_first_last(x[1]) for x in pieces if x[0] == "val"]
+                        txt = "".join(x[1] if x[0] == "lit" else "" for x in pieces)
+                        shape = len(outs) == 2 and all(x[0] in ("lit", "val") for x in pieces) and \
+                            re.fullmatch(r"(realtype|double)\s*=\s*\w+->\s*;" if kind == "params" else r"(realtype|double)\s*=\s*;", txt.strip()) is not None
                         if kind == "params":
                             good = shape and outs[0] == outs[1] and outs[0] in kx
                         else:
                             good = shape and outs[0] in kx and outs[1] in vx
                         dkey = f"{key}:{kind}-declaration"
                         dmsg = "each symbol is declared once as a local of this function from the enumeration's own key" + ("" if kind == "params" else " and value")
-                        if good or shape:
-                            ctx.check(good, "R5", dkey, (rel, it[5]), dmsg, found=f"{[J.show(o) for o in outs]} in {txt.strip()[:60]!r}")
+                        # wrong = the declaration is understood and pairs the wrong parts of the enumeration's items
+                        own = kx | vx
+                        if good:
+                            ctx.ok("R5", dkey, (rel, it[5]), dmsg)
+                        elif shape and all(o in own for o in outs):
+                            ctx.bad("R5", dkey, (rel, it[5]), dmsg, found=f"{[J.show(o) for o in outs]} in {txt.strip()[:60]!r}")
                         else:
                             ctx.unrec("R5", dkey, (rel, it[5]), f"the body of the {kind} loop is not one declaration `type <key> = ...;`: {[J.show(o) for o in outs]} in {txt.strip()[:60]!r}")
     ctx.floor("R5", "expression-pasting functions", n, 14)
@@ -481,53 +544,15 @@ def _r5(ctx, pkg):
         hit = False
         for it in order:
             if it[0] == "for":
-                base, fs = J.unfilter(it[2])
-                if fs and fs[0][0] == "collect_variable_items" and fs[0][1] and fs[0][1][0] == ("const", kind):
+                cur, fs = _source(order, it, it[2])
+                cv = [f for f in fs if f[0] == "collect_variable_items"]
+                if cv and cv[0][1] and cv[0][1][0] == ("const", kind):
                     hit = True
-                    cur = _resolved(order, it, base)
-                    ctx.check(cur == RCHC, "R5", f"{rel.split('/')[-1]}:{kind}-components", (rel, it[5]),
-                              f"{kind} are collected over reactions + grains + heating + cooling", expected=J.show(RCHC), found=J.show(cur) if cur else "unset")
+                    _covers(ctx, f"{rel.split('/')[-1]}:{kind}-components", (rel, it[5]), f"enumeration of the {kind}", cur, RCHC)
         if not hit:
             ctx.missing("R5", f"{rel.split('/')[-1]}:{kind}", (rel, 0), f"no collect_variable_items('{kind}') loop found")
     # _collect_variable_items visits every component
-    fn = pkg.func(UTIL, "_collect_variable_items")
-    ctx.saw(UTIL, "_collect_variable_items")
-    from ..valueflow import Flow
-    fl = Flow(fn, UTIL)
-    # by role: the dictionary whose .items() is returned
-    acc = None
-    for f in fl.facts:
-        if f.kind == "return" and f.value:
-            v = simp(f.value)
-            if v[0] == "meth" and v[2] == "items" and v[1][0] == "acc":
-                acc = v[1][1]
-            elif v[0] == "acc":
-                acc = v[1]
-    st = [f for f in fl.facts if f.kind == "store" and f.target == acc]
-    ok = False
-    if len(st) == 1 and len(st[0].loops) == 2 and not st[0].guards:
-        l1, l2 = st[0].loops
-        ok = simp(l1.iter) == ("param", "complist") and simp(l2.iter)[0] == "meth" and simp(l2.iter)[2] == "items" and \
-            simp(l2.iter)[1] == ("call", ("global", "getattr"), (("elem", ("param", "complist"), l1.id), ("param", "var_type")), ()) and \
-            simp(st[0].index) == ("key", simp(l2.iter)[1], l2.id) and simp(st[0].value) == ("val", simp(l2.iter)[1], l2.id)
-    if not ok:
-        # equivalent spelling: variables.update(getattr(comp, var_type)[.items()]) once per component
-        up = [f for f in fl.facts if f.kind == "mutate" and f.target == acc and f.op == "update"]
-        if len(up) == 1 and len(up[0].loops) == 1 and not up[0].guards and not st:
-            l1 = up[0].loops[0]
-            g = ("call", ("global", "getattr"), (("elem", ("param", "complist"), l1.id), ("param", "var_type")), ())
-            a = simp(up[0].value) if up[0].value else None
-            ok = simp(l1.iter) == ("param", "complist") and a in (g, ("meth", g, "items", (), ()))
-            st = up
-    if not ok and not st:
-        # the merge as ONE expression: dict / OrderedDict over the chained items of every component's mapping, or a dict
-        # comprehension with the two loops as its generators
-        rets = [simp(f.value) for f in fl.facts if f.kind == "return" and f.value is not None]
-        ok = len(rets) == 1 and _merged_expression(rets[0])
-    brk = [f for f in fl.facts if f.kind in ("break", "continue")]
-    ctx.check(ok and not brk, "R5", "_collect_variable_items:every component", (UTIL, fn.lineno),
-              "every item of every component's params/deriveds/constants is merged (keyed by symbol), unconditionally",
-              found="; ".join(f"{f.kind}@{f.line} guards={[show(g)[:40] for g, _ in f.guards]}" for f in st + brk))
+    _collect_rule(ctx, pkg)
     # Component.params/deriveds/constants filter by the right kind
     comp = pkg.cls("Component")
     for prop, kind in (("params", "param"), ("deriveds", "derived"), ("constants", "constant")):
@@ -553,37 +578,199 @@ def _r5(ctx, pkg):
                   f"Component.{prop} maps symbol -> value for the symbols of kind `{kind}`")
 
 
-def _merged_expression(v) -> bool:
-    """is `v` (the items of) a dictionary that merges, in order and unfiltered, `getattr(comp, var_type)` of EVERY comp in
-    `complist`?   dict(chain.from_iterable(getattr(c, var_type).items() for c in complist)),  chain(*[..]),
-    {k: x for c in complist for k, x in getattr(c, var_type).items()}  -- with or without the final .items()"""
-    COMPS, VT = ("param", "complist"), ("param", "var_type")
-    if v[0] == "meth" and v[2] == "items" and not v[3] and not v[4]:
-        v = v[1]
+def _generator_as_expression(fn):
+    """A generator helper whose body is one nest of `for` / `if` statements around a single `yield E` or `yield from E` returns --
+    as far as the sequence of produced values goes -- the generator expression `(E for .. if ..)` / `chain.from_iterable(E for ..)`:
+    -> a copy of the function with that `return`, or None when the function is not of that shape."""
+    import copy
+    body = [st for st in fn.body if not (isinstance(st, ast.Expr) and isinstance(st.value, ast.Constant))]
+    if len(body) != 1 or sum(isinstance(n, (ast.Yield, ast.YieldFrom)) for n in ast.walk(fn)) != 1 or any(isinstance(n, ast.Return) for n in ast.walk(fn)):
+        return None
+    gens, st = [], body[0]
+    while True:
+        if isinstance(st, ast.For) and not st.orelse and len(st.body) == 1:
+            gens.append(ast.comprehension(target=copy.deepcopy(st.target), iter=copy.deepcopy(st.iter), ifs=[], is_async=0))
+            for n in ast.walk(gens[-1].target):
+                if hasattr(n, "ctx"):
+                    n.ctx = ast.Store()
+            st = st.body[0]
+        elif isinstance(st, ast.If) and not st.orelse and len(st.body) == 1 and gens:
+            gens[-1].ifs.append(copy.deepcopy(st.test))
+            st = st.body[0]
+        else:
+            break
+    if not (isinstance(st, ast.Expr) and isinstance(st.value, (ast.Yield, ast.YieldFrom)) and st.value.value is not None):
+        return None
+    y = st.value
+    if isinstance(y, ast.Yield):
+        if not gens:
+            return None
+        val = ast.GeneratorExp(elt=copy.deepcopy(y.value), generators=gens)
+    elif gens:
+        val = ast.Call(func=ast.Attribute(value=ast.Name(id="chain", ctx=ast.Load()), attr="from_iterable", ctx=ast.Load()),
+                       args=[ast.GeneratorExp(elt=copy.deepcopy(y.value), generators=gens)], keywords=[])
+    else:
+        val = copy.deepcopy(y.value)
+    new = copy.copy(fn)
+    new.body = [ast.copy_location(ast.Return(value=val), body[0])]
+    return ast.fix_missing_locations(new)
 
-    def mapping_of(x, bv):
-        """x is getattr(bv, var_type)[.items()]"""
-        if x[0] == "meth" and x[2] == "items" and not x[3] and not x[4]:
-            x = x[1]
-        return x == ("call", ("global", "getattr"), (bv, VT), ())
-    is_chain = lambda f: f == ("global", "chain") or f == ("attr", ("global", "itertools"), "chain")
-    if v[0] == "call" and (v[1] in (("global", "dict"), ("global", "OrderedDict")) or v[1] == ("attr", ("global", "collections"), "OrderedDict")) \
-            and len(v[2]) == 1 and not v[3]:
-        x = v[2][0]
-        g = None
-        if x[0] == "meth" and is_chain(x[1]) and x[2] == "from_iterable" and len(x[3]) == 1 and not x[4]:
-            g = x[3][0]
-        elif x[0] == "call" and is_chain(x[1]) and len(x[2]) == 1 and x[2][0][0] == "star" and not x[3]:
-            g = x[2][0][1]
-        if g is not None and g[0] == "comp" and g[1] in ("gen", "list") and len(g[3]) == 1:
-            tg, it, ifs = g[3][0]
-            return tg is not None and tg[0] == "bv" and it == COMPS and not ifs and mapping_of(g[2], tg)
+
+_CHAIN = (("global", "chain"), ("attr", ("global", "itertools"), "chain"))
+_DICTS = (("global", "dict"), ("global", "OrderedDict"), ("attr", ("global", "collections"), "OrderedDict"))
+
+
+def _pair_stream(v):
+    """The sequence of (key, value) pairs an expression produces, as ONE nest of generators:
+         ([(variable, iterable, (filters..)), ..], mapping)     the items of `mapping`, for every binding of the generators in order
+    whatever the spelling: `M.items()`; `(E for x in S)` / `[..]` whose element is a pair stream or the pair `(k, v)` of a last
+    generator `for k, v in M.items()`; `chain.from_iterable(<generator of pair streams>)` / `chain(*[..])`; a generator over another
+    generator (`f(x) for x in (g(y) for y in S)` is `f(g(y)) for y in S`).  None when the expression is not understood."""
+    from ..valueflow import subst
+    if v[0] == "meth" and v[2] == "items" and not v[3] and not v[4]:
+        return [], v[1]
+    if v[0] == "meth" and v[1] in _CHAIN and v[2] == "from_iterable" and len(v[3]) == 1 and not v[4]:
+        x = v[3][0]
+    elif v[0] == "call" and v[1] in _CHAIN and len(v[2]) == 1 and v[2][0][0] == "star" and not v[3]:
+        x = v[2][0][1]
+    elif v[0] == "comp" and v[1] in ("gen", "list") and v[2][0] == "tuple" and len(v[2][1]) == 2 and v[3]:
+        # (k, v) for .. for k, v in M.items()
+        tg, it, ifs = v[3][-1]
+        if tg is not None and tg[0] == "tuple" and tuple(tg[1]) == tuple(v[2][1]) and not ifs:
+            inner = _pair_stream(it)
+            g_ = _gens(v[3][:-1] + ((tg, it, ifs),))
+            if g_ is not None:
+                inner = _pair_stream(g_[0][-1][1])
+                if inner is not None and not inner[0]:
+                    return g_[0][:-1], inner[1]
+        return None
+    else:
+        return None
+    # a sequence of pair streams, chained
+    if x[0] == "comp" and x[1] in ("gen", "list"):
+        g_ = _gens(x[3])
+        if g_ is None:
+            return None
+        inner = _pair_stream(subst(x[2], g_[1]) if g_[1] else x[2])
+        if inner is None:
+            return None
+        return g_[0] + inner[0], inner[1]
+    return None
+
+
+def _gens(gs):
+    """generators of a comprehension with a generator over another one-generator comprehension composed away:
+    `for x in (g(y) for y in S [if p(y)])` binds x := g(y) under `for y in S [if p(y)]`"""
+    from ..valueflow import subst
+    out, env = [], {}
+    for tg, it, ifs in gs:
+        it = subst(it, env) if env else it
+        ifs = tuple(subst(c, env) for c in ifs) if env else tuple(ifs)
+        if tg is None or tg[0] != "bv":
+            if tg is not None and tg[0] == "tuple" and not ifs and (tg, it, ifs) == tuple(gs[-1]):
+                out.append((tg, it, ifs))         # the destructuring last generator `for k, v in ..` (read by the caller)
+                continue
+            return None
+        if it[0] == "comp" and it[1] in ("gen", "list") and len(it[3]) == 1 and it[3][0][0] is not None and it[3][0][0][0] == "bv":
+            t2, i2, f2 = it[3][0]
+            out.append((t2, i2, tuple(f2)))
+            env[tg] = it[2]
+            if ifs:
+                out[-1] = (t2, i2, tuple(f2) + ifs)
+        else:
+            out.append((tg, it, ifs))
+    return out, env
+
+
+def _collect_rule(ctx, pkg):
+    """utilities._collect_variable_items(components, kind): the items of ONE dictionary that merges, in order and unfiltered,
+    `getattr(c, kind)` of EVERY c in `components` -- as nested loops storing / updating, or as one expression (dict / OrderedDict
+    over chained items, a dict comprehension, generator helpers of the module).  The two parameters are taken by POSITION."""
+    from ..valueflow import Flow, subst
+    fn = pkg.func(UTIL, "_collect_variable_items")
+    ctx.saw(UTIL, "_collect_variable_items")
+    key, where = "_collect_variable_items:every component", (UTIL, fn.lineno)
+    msg = "every item of every component's params/deriveds/constants is merged (keyed by symbol), unconditionally"
+    ps = [a.arg for a in fn.args.args]
+    if len(ps) != 2 or fn.args.vararg or fn.args.kwarg:
+        ctx.unrec("R5", key, where, f"the filter no longer takes (components, kind): {ps}")
+        return
+    COMPS, VT = ("param", ps[0]), ("param", ps[1])
+
+    def helper(name):
+        g = pkg.functions.get((UTIL, name))
+        if g is None or g is fn:
+            return None
+        if any(isinstance(n, (ast.Yield, ast.YieldFrom)) for n in ast.walk(g)):
+            return _generator_as_expression(g)
+        return g
+    fl = Flow(fn, UTIL, func_resolver=helper)
+    rets = [simp(f.value) for f in fl.facts if f.kind == "return" and f.value is not None]
+    evidence, ok = [], False
+    # by role: the dictionary whose .items() is returned
+    acc = None
+    for v in rets:
+        if v[0] == "meth" and v[2] == "items" and v[1][0] == "acc":
+            acc = v[1][1]
+        elif v[0] == "acc":
+            acc = v[1]
+
+    def domain(d, what):
+        """is the sequence the outer loop visits `components` itself?  a slice / selection of it is positive evidence"""
+        if d == COMPS:
+            return True
+        if d[0] == "sub" and d[1] == COMPS and d[2][0] == "slice":
+            evidence.append(f"{what} visits only a slice of `{ps[0]}`: {show(d)[:60]}")
+        elif d[0] == "comp" and len(d[3]) == 1 and d[3][0][1] == COMPS and d[3][0][2] and d[2] == d[3][0][0]:
+            evidence.append(f"{what} visits a filtered selection of `{ps[0]}`: {show(d)[:80]}")
+        elif d[0] == "call" and d[1] == ("global", "filter") and len(d[2]) == 2 and d[2][1] == COMPS:
+            evidence.append(f"{what} visits a filtered selection of `{ps[0]}`: {show(d)[:80]}")
         return False
-    if v[0] == "comp" and v[1] == "dict" and len(v[3]) == 2:
-        (t1, i1, f1), (t2, i2, f2) = v[3]
-        return t1 is not None and t1[0] == "bv" and i1 == COMPS and not f1 and not f2 and i2[0] == "meth" and i2[2] == "items" and mapping_of(i2, t1) \
-            and t2 is not None and t2[0] == "tuple" and len(t2[1]) == 2 and v[2] == ("tuple", tuple(t2[1]))
-    return False
+    if acc is not None:
+        st = [f for f in fl.facts if f.kind == "store" and f.target == acc]
+        up = [f for f in fl.facts if f.kind == "mutate" and f.target == acc and f.op == "update"]
+        brk = [f for f in fl.facts if f.kind in ("break", "continue") and f.loops]
+        for f in st + up:
+            if f.guards:
+                evidence.append(f"the merge at line {f.line} happens only under {[show(g)[:50] for g, _ in f.guards]}")
+        for f in brk:
+            evidence.append(f"`{f.kind}` at line {f.line} skips components / items" + (f" when {[show(g)[:50] for g, _ in f.guards]}" if f.guards else ""))
+        if len(st) == 1 and not up and len(st[0].loops) == 2:
+            l1, l2 = st[0].loops
+            g = ("call", ("global", "getattr"), (("elem", COMPS, l1.id), VT), ())
+            i2 = simp(l2.iter)
+            ok = domain(simp(l1.iter), "the loop") and i2 == ("meth", g, "items", (), ()) and \
+                simp(st[0].index) == ("key", g, l2.id) and simp(st[0].value) == ("val", g, l2.id)
+        elif len(up) == 1 and not st and len(up[0].loops) == 1:
+            # variables.update(getattr(comp, kind)[.items()]) once per component
+            l1 = up[0].loops[0]
+            g = ("call", ("global", "getattr"), (("elem", COMPS, l1.id), VT), ())
+            a = simp(up[0].value) if up[0].value else None
+            ok = domain(simp(l1.iter), "the loop") and a in (g, ("meth", g, "items", (), ()))
+    elif len(rets) == 1:
+        # the merge as ONE expression
+        v = rets[0]
+        if v[0] == "meth" and v[2] == "items" and not v[3] and not v[4]:
+            v = v[1]
+        ps_ = None
+        if v[0] == "call" and v[1] in _DICTS and len(v[2]) == 1 and not v[3]:
+            ps_ = _pair_stream(v[2][0])
+        elif v[0] == "comp" and v[1] == "dict" and v[2][0] == "tuple" and len(v[2][1]) == 2:
+            ps_ = _pair_stream(("comp", "gen", v[2], v[3]))
+        if ps_ is not None:
+            gens, mapping = ps_
+            for tg, it, ifs in gens:
+                if ifs:
+                    evidence.append(f"components / items are filtered: if {'; '.join(show(c)[:50] for c in ifs)}")
+            if len(gens) == 1:
+                tg, it, ifs = gens[0]
+                ok = domain(it, "the expression") and not ifs and mapping == ("call", ("global", "getattr"), (tg, VT), ())
+    if ok and not evidence:
+        ctx.ok("R5", key, where, msg)
+    elif evidence:
+        ctx.bad("R5", key, where, msg, found="; ".join(evidence)[:300])
+    else:
+        ctx.unrec("R5", key, where, "cannot see how the components' mappings are merged: " + "; ".join(show(v)[:120] for v in rets)[:300])
 
 
 # ------------------------------------------------------------------ R6
